@@ -131,6 +131,23 @@ def run_mip(case):
             V.append(viol("c14.uncoupled", "nothing couples the intervals: split %.8f, unsplit %.8f" % (run.value, mono.value), tags, ptags))
     elif run.value > mono.value + 1e-6 * (1 + abs(mono.value)):
         V.append(viol("c14.exceeds", "coupling only through a storage with start = end level: split %.8f exceeds unsplit %.8f" % (run.value, mono.value), tags, ptags))
+    # the time steps refer to the original grid: nothing is dispatched outside an asset's life time, and the market's cash flow,
+    # recomputed from its dispatch with the prices of the ORIGINAL steps, is what the DCF table reports for it
+    for x in scn["assets"]:
+        W = g.window(x.get("start"), x.get("end"), scn.get("date_tz"))
+        for (an, nd), arr in tab.items():
+            if an != x["name"]:
+                continue
+            out = [t for t in range(T) if t not in W and abs(arr[t]) > 1e-7]
+            if out:
+                V.append(viol("c14.steps", "asset %s dispatches %.6f in step %d of the original grid, its life time covers steps %s" % (an, arr[out[0]], out[0], W), tags, ptags + ["life_time"]))
+                break
+    mk = [x for x in scn["assets"] if x["name"] == "mkt"][0]
+    if ("mkt", "n1") in tab and run.out.get("DCF") is not None and "mkt" in run.out["DCF"].columns and not mk.get("wacc"):
+        want = -float(np.dot(np.asarray(scn["prices"]["p"], float), tab[("mkt", "n1")]))
+        got = float(np.nansum(run.out["DCF"]["mkt"].values))
+        if not close(want, got, abs_=1e-6):
+            V.append(viol("c14.steps", "market: cash flow %.8f in the DCF table, its dispatch priced with the prices of the original steps gives %.8f" % (got, want), tags, ptags + ["repriced"]))
     # the value is the cash flow of the reported dispatch
     dcf = run.out.get("DCF")
     if dcf is not None:
